@@ -176,9 +176,12 @@ func Run(run *ev.Run) {
 
 	// ---- B. end to end: tunnelled vs untunnelled snapshots, threshold predicate ------------------
 	reqN := 0
-	do := func(c call, q string, body []byte, threshold int) (*kit.Wire, []kit.Invocation, error) {
+	do := func(c call, q string, body []byte, threshold int, chunked bool) (*kit.Wire, []kit.Invocation, error) {
 		reqN++
 		cl := &kit.Caller{Base: base, Threshold: threshold}
+		if chunked {
+			cl.Transport = chunkedTransport{}
+		}
 		full := q
 		if c.Extra != "" {
 			if full != "" {
@@ -225,19 +228,33 @@ func Run(run *ev.Run) {
 					continue
 				}
 				// reference run: tunnelling off
-				w0, inv0, err0 := do(c, q, body, 0)
+				w0, inv0, err0 := do(c, q, body, 0, false)
 				if w0 == nil {
 					run.Inconclusive(fmt.Sprintf("request could not be built: %v", err0))
 					continue
 				}
 				fullLen := len(strings.SplitN(w0.Target+"?", "?", 3)[1])
+				type variant struct {
+					T       int
+					chunked bool
+				}
+				var variants []variant
 				for _, T := range []int{1, fullLen - 1, fullLen, fullLen + 1, 100000} {
 					if T <= 0 {
 						continue
 					}
+					variants = append(variants, variant{T, false})
+					if fullLen > T && (T == 1 || T == fullLen-1) {
+						// the same tunnelled request through a transport that does not know the body length in advance
+						// (a streaming or wrapping RoundTripper, a proxy): chunked framing, no Content-Length
+						variants = append(variants, variant{T, true})
+					}
+				}
+				for _, vr := range variants {
+					T := vr.T
 					run.Eval(1)
-					w, inv, err := do(c, q, body, T)
-					desc := map[string]any{"generation": g, "call": c, "query_len": fullLen, "threshold": T, "body": trunc(string(body)), "param_value": trunc(pv)}
+					w, inv, err := do(c, q, body, T, vr.chunked)
+					desc := map[string]any{"generation": g, "call": c, "query_len": fullLen, "threshold": T, "body": trunc(string(body)), "param_value": trunc(pv), "chunked_framing": vr.chunked}
 					if w == nil {
 						desc["error"] = fmt.Sprint(err)
 						run.Violation(g+"/e2e/build-error", desc)
@@ -303,7 +320,10 @@ func Run(run *ev.Run) {
 					}
 					run.Count("e2e_pairs", 1)
 					if tunnelled {
-						run.Distinct(fmt.Sprintf("%s|e2e|%s %s|%s|%d|%d", g, c.HTTP, c.Restli, refQueryEscape(trunc(pv)), bi, T))
+						run.Distinct(fmt.Sprintf("%s|e2e|%s %s|%s|%d|%d|%v", g, c.HTTP, c.Restli, refQueryEscape(trunc(pv)), bi, T, vr.chunked))
+						if vr.chunked {
+							run.Count("tunnelled_requests_chunked", 1)
+						}
 					}
 					if reqN%401 == 0 || reqN < 12 {
 						run.Sample(desc)
@@ -347,6 +367,8 @@ func Run(run *ev.Run) {
 	mals = append(mals, mal{"multipart-truncated", "PUT", "", ct5, b5[:len(b5)-3], false})
 	mals = append(mals, mal{"multipart-no-boundary-param", "PUT", "", "multipart/mixed", b4, false})
 	mals = append(mals, mal{"multipart-empty-body", "GET", "", ct1, nil, true})
+	mals = append(mals, mal{"override-header-with-url-query-no-body", "GET", "p=1", "", nil, true})
+	mals = append(mals, mal{"override-header-with-url-query-empty-form", "GET", "p=1", "application/x-www-form-urlencoded", []byte{}, true})
 	var allMals []mal
 	for _, m := range mals {
 		for _, verb := range []string{"GET", "PUT", "DELETE", "POST"} {
@@ -365,7 +387,9 @@ func Run(run *ev.Run) {
 			}
 			req, _ := http.NewRequest("POST", u, bytes.NewReader(m.body))
 			req.Header.Set("X-HTTP-Method-Override", m.override)
-			req.Header.Set("Content-Type", m.ctype)
+			if m.ctype != "" {
+				req.Header.Set("Content-Type", m.ctype)
+			}
 			req.Header.Set("X-RestLi-Protocol-Version", "2.0.0")
 			resp, err := http.DefaultClient.Do(req)
 			desc := map[string]any{"generation": g, "malformed": m.name, "path": path, "override": m.override}
@@ -394,6 +418,19 @@ func Run(run *ev.Run) {
 			run.Distinct(g + "|malformed|" + m.name + "|" + m.override + "|" + path)
 		}
 	}
+}
+
+// chunkedTransport hides the body length from net/http, which then frames the request with Transfer-Encoding: chunked.
+type chunkedTransport struct{}
+
+func (chunkedTransport) RoundTrip(req *http.Request) (*http.Response, error) {
+	if req.Body != nil && req.Body != http.NoBody {
+		req = req.Clone(req.Context())
+		req.Body = io.NopCloser(struct{ io.Reader }{req.Body})
+		req.ContentLength = -1
+		req.GetBody = nil
+	}
+	return http.DefaultTransport.RoundTrip(req)
 }
 
 func diffField(a, b kit.Invocation, ha, hb map[string][]string) string {
